@@ -48,6 +48,9 @@ def prepare_matrix(work, tag, families=None, cfg=None, only=None):
             # the equation-based gas solver rejects loops that use builtins
             # (SolvingGasEquationFailed); those entries are analysed with the linear solver only
             entries = [e for e in entries if "lin_only" not in getattr(e, "tags", ())]
+        if os.environ.get("VERIF_CUR_TIER") != "thorough" and not only:
+            # entries whose queries need minutes each are analysed in the thorough tier only
+            entries = [e for e in entries if "thorough_only" not in getattr(e, "tags", ())]
         if not entries:
             continue
         chunk = 1 if fam == "edge" else 60
@@ -282,7 +285,30 @@ def generic(args, prop, worker, cfgs, confirm, level="model_checking", extra_tas
     results = run_pool(worker, tasks, os.path.join(work, "progress.log"))
     reps = Replayers()
     kf = common.known_findings()
-    violations, faults, errors = [], list(static_notes), []
+    violations, faults, errors = [], [], []
+    if static_notes:
+        # The static leg compares two outputs of the real compiler (recorded statement ranges
+        # against the sizes of the emitted instructions): a mismatch is a violation of the
+        # property's second conjunct and reproduces by compiling the saved source again.
+        by_dump = {}
+        for n in static_notes:
+            by_dump.setdefault(n.split(": ", 1)[0], []).append(n.split(": ", 1)[1])
+        for dpath, msgs in by_dump.items():
+            srcs = [(s, cf) for (dp, _), (s, cf, _) in meta.items() if dp == dpath]
+            src, cf = srcs[0] if srcs else (None, None)
+            name = "static_" + os.path.basename(dpath).replace(".json", "").replace(".", "_")
+            payload = {"property": prop, "kind": "statement bytecode ranges",
+                       "mismatches": msgs[:50], "n_mismatches": len(msgs), "config": cf,
+                       "source_text": open(src).read() if src and os.path.exists(src) else None,
+                       "note": "recorded Sierra statement ranges do not partition the emitted "
+                               "code / do not end where the statement's instructions end",
+                       "how": "casm-tool dump <source> --config <config> --out d.json; compare "
+                              "d.stmts[k].start/end with the cumulative sizes of d.insns"}
+            if known(prop, name, kf):
+                print(f"KNOWN-FINDING: property={prop} {name}")
+                continue
+            path = save_replay(prop, name, payload)
+            violations.append((name, path))
     validated = 0
     not_replayable = 0
     progs = {}
@@ -773,10 +799,11 @@ def main():
     ap.add_argument("--seed", type=int, default=int(os.environ.get("VERIF_SEED", "0")))
     args = ap.parse_args()
     os.environ["VERIF_SEED"] = str(args.seed)
+    os.environ["VERIF_CUR_TIER"] = args.tier
     if not os.environ.get("VERIF_SHUF_FUNCS"):
         many = args.prop in ("C01", "C05")
-        os.environ["VERIF_SHUF_FUNCS"] = (("4000" if many else "800") if args.tier == "thorough"
-                                          else ("400" if many else "150"))
+        os.environ["VERIF_SHUF_FUNCS"] = (("6000" if many else "800") if args.tier == "thorough"
+                                          else ("800" if many else "150"))
     if args.prop == "C07":
         import c07
         return c07.main(args)
